@@ -50,6 +50,10 @@ NONDET_PREFIX = ('random.', 'numpy.random.', 'time.', 'os.', 'uuid.', 'tempfile.
 
 
 def run(ctx):
+  from rules import C12 as _c12      # "well-formed results": a stream merged as if sorted goes backwards in time on unsorted storage (end before start)
+  _c12.assumes_sorted_in(ctx, ('apply_sustain_control_changes', 'trim_note_sequence', 'extract_subsequence', '_extract_subsequences', 'split_note_sequence',
+                                'split_note_sequence_on_time_changes', 'split_note_sequence_on_silence', 'transpose_note_sequence', 'stretch_note_sequence',
+                                'shift_sequence_times', 'quantize_note_sequence', 'quantize_note_sequence_absolute'), 'WELLFORMED/assumes-sorted')
   own.classify_all(ctx)
   for name, (ptypes, consts, borrowed, _reason) in own.RETURNS_NEW.items():
     res = own.check_borrowed(ctx, SL + ':' + name, ptypes, consts, borrowed)
